@@ -31,14 +31,14 @@ TRUSTED = ['rendering of the JSON documents into the reduced Coq types (tools/pr
            'the harness reports the core Solution (routes, unassigned) through public fields of vrp_core::models::Solution',
            'bookkeeping dumps come from the verification hook in insertions.rs (observer after apply_insertion_success, '
            'thread-local: only insertions executed on the solving thread are seen)']
-ASSUMPTIONS = ['problem fragment without breaks, recharges, relations, clustering (reload marker jobs are filtered out of the trace); '
+ASSUMPTIONS = ['problem fragment without required breaks, recharges, relations, clustering (reload and optional-break marker jobs are filtered out of the trace); '
                'tasks of the same kind inside one job use different locations (checked: precond_viol)',
                'operator choice (which job, which route) is an oracle argument of the bookkeeping model; ruin/removal steps '
                'are validated only through the end-to-end document, not step by step']
 
 
 def generate(rng, tier, n):
-    return e2e.gen_cases(rng, n, per_problem=3, trace=TRACE)
+    return e2e.gen_cases(rng, n, per_problem=3, trace=TRACE, allow=('tdm',))
 
 
 def _sol(impl):
@@ -82,10 +82,10 @@ def compare(c, impl, model):
     core_routes = [(ids.vehicle(r['vehicle']), r['shift'], [ids.job(j) for j in r['jobs'] if not e2e.is_conditional_id(c, j)])
                    for r in core.get('routes', [])]
     # reload markers: as many reload activities in the document tour as marker jobs in the core route
-    doc_reloads = [sum(1 for st in t['stops'] for a in st['activities'] if a.get('type') == 'reload') for t in s['tours']]
+    doc_reloads = [sum(1 for st in t['stops'] for a in st['activities'] if a.get('type') in ('reload', 'break')) for t in s['tours']]
     core_reloads = [sum(1 for j in r['jobs'] if e2e.is_conditional_id(c, j)) for r in core.get('routes', [])]
     if doc_reloads != core_reloads:
-        return 'reload activities per document tour %s differ from marker jobs per core route %s' % (doc_reloads, core_reloads)
+        return 'reload / break activities per document tour %s differ from marker jobs per core route %s' % (doc_reloads, core_reloads)
     got = [(v, sh, list(js)) for (v, sh, js) in doc_routes]
     if core_routes != got:
         return 'document tours %s differ from core routes %s' % (got, core_routes)
@@ -98,7 +98,8 @@ def compare(c, impl, model):
 CLASS = {'AJobLost': 'job-lost', 'AJobDuplicated': 'job-duplicated', 'AJobIncomplete': 'job-incomplete',
          'AJobOrder': 'delivery-before-pickup', 'AJobNoReason': 'unassigned-without-reason', 'AForeignJob': 'foreign-job-id',
          'ATourVehicle': 'tour-unknown-vehicle-shift', 'ATourEmpty': 'empty-tour', 'AShiftTwice': 'shift-drives-two-tours',
-         'AExtraActivity': 'undefined-break-reload-activity', 'AReload': 'reload-not-a-distinct-defined-reload-of-the-shift'}
+         'AExtraActivity': 'undefined-break-reload-activity', 'AReload': 'reload-not-a-distinct-defined-reload-of-the-shift',
+         'ABreak': 'break-not-a-distinct-defined-break-of-the-shift'}
 
 
 def _violations(c, s, items):
@@ -200,8 +201,8 @@ MANIFEST_TEXT = ('Machine-checked proof (Coq, no axioms) plus a verified end-to-
                  'remove_empty_routes, Solution::from) every job has exactly one home after ANY history, so what reaches the writer is an '
                  'exact partition. The checker is run inside Coq on every document the real solver returns for generated problems under a '
                  'matrix of configurations; the bookkeeping invariant is evaluated on real SolutionContext dumps taken after every insertion.')
-MANIFEST_NOTE = ('Trusted: Coq kernel + vm_compute; JSON->Gallina rendering (cross-checked by a Python twin); harness. Fragment: no breaks, '
-                 'recharges, relations, clustering (reloads are in: every reload activity a distinct reload of the tour\'s shift). Operator choice is an oracle; ruin steps are validated end-to-end only. '
+MANIFEST_NOTE = ('Trusted: Coq kernel + vm_compute; JSON->Gallina rendering (cross-checked by a Python twin); harness. Fragment: no required breaks, '
+                 'recharges, relations, clustering (reloads and optional breaks are in: every reload / break activity a distinct reload / break of the tour\'s shift). Operator choice is an oracle; ruin steps are validated end-to-end only. '
                  'Findings made with it (empty tour for a maxDuration vehicle; writer panic on its f64::MAX departure) are fixed '
                  'in /repo and kept as regression cases / reverse-patch mutants.')
 MANIFEST_TECHNIQUE = 'Coq proof (checker soundness/completeness + bookkeeping invariant) + verified checker run on real solver output'
